@@ -21,11 +21,18 @@ pub fn gen_case(rng: &mut Rng) -> Vec<String> {
             12 => if sizes[h] > 0 { format!("vget v{h} {}", rng.below(sizes[h] as u64)) } else { format!("vsize v{h}") },
             13 => format!("veq v{h} v{g}"),
             14 => format!("vslice v{h}"),
-            15 => if allow_pushself && sizes[h] > 0 { sizes[h] += 1; format!("vpushself v{h} {}", rng.below(sizes[h] as u64 - 1)) } else { format!("vsize v{h}") },
+            15 => if allow_pushself && sizes[h] > 0 { sizes[h] += 1; format!("{} v{h} {}", if rng.chance(1, 2) { "vpushself" } else { "vpushmove" }, rng.below(sizes[h] as u64 - 1)) } else { format!("vsize v{h}") },
             16 => format!("sset s{h} {}", if rng.chance(1, 5) { "\"\"".to_string() } else { format!("w{}", rng.below(1000)) }),
             17 => format!("scopy s{h} s{g}"),
             18 => if rng.chance(1, 2) { format!("sassign s{h} s{g}") } else { format!("smove s{h} s{g}") },
-            _ => if rng.chance(1, 2) { format!("sview s{h}") } else { format!("seq s{h} s{g}") },
+            _ => match rng.below(5) {
+                0 | 1 => format!("sview s{h}"),
+                2 => format!("seq s{h} s{g}"),
+                // s = string_view(s).substr(k): assignment from a view into the string itself
+                3 => format!("ssub s{h} {}", rng.below(4)),
+                // s = String(std::string_view{}): a view with a null data pointer
+                _ => format!("snull s{h}"),
+            },
         };
         lines.push(l);
     }
